@@ -293,7 +293,7 @@ impl Prop for C16 {
                 traverse_text(Grammar::Lib, &f.text, st, &f.name)?
             }
             "svgen" => {
-                let p = svgen::generate(t, &svgen::Cfg::default());
+                let p = svgen::generate_mixed(t, &svgen::Cfg::default());
                 let mut f = Feats::default();
                 let text = p.render(t, &TriviaCfg::full(), &mut f);
                 traverse_text(Grammar::Sv, &text, st, "svgen")?
